@@ -71,6 +71,18 @@ def wrapper_function(p, ns):
     return w, w
 
 
+def own_function(p, fn):
+    """the function whose def gives the wrapper's OWN parameters: for a wrapper under
+    functools.wraps / update_wrapper, a bare twin sharing its code, defaults, globals and closure
+    (without the copied __dict__ and the __wrapped__ link, which are not part of the def)"""
+    if p.route != 'wraps_sig':
+        return fn
+    twin = types.FunctionType(fn.__code__, fn.__globals__, fn.__name__, fn.__defaults__, fn.__closure__)
+    twin.__kwdefaults__ = fn.__kwdefaults__
+    twin.__qualname__ = fn.__qualname__
+    return twin
+
+
 def callee_object(p, ns, key):
     if p.route == 'method':
         return getattr(ns['inst'], key)
@@ -84,7 +96,7 @@ def expected_declared(p, ns):
     (in any order), post-processed as the route requires; ValueError -> plain."""
     fn, obj = wrapper_function(p, ns)
     plain = PS.signature(obj)
-    own = PS.signature(fn)
+    own = PS.signature(own_function(p, fn))
     if p.route == 'modifiers':
         own = plain          # the rewritten signature advertised by the modifiers object
     has_va = p.va_name is not None
@@ -104,12 +116,12 @@ def expected_declared(p, ns):
                 # the written call cannot succeed at all: 'incompatible callee'
                 # (for the stacked pass-through the generator could not foresee the inner
                 # application's discovered signature: such programs are outside the generated domain)
-                if p.route in ('chain_kw', 'chain_pos') or (
+                if p.route in ('chain_kw', 'chain_pos', 'chain_pick') or (
                         p.route == 'closure_stack' and c.callee == list(p.callees)[0]):
                     return None, plain      # which level falls back is not specified
                 return [plain], plain
             n, names = c.n, [name_of(k) for k in c.names]
-            if p.route in ('chain_kw', 'chain_pos'):
+            if p.route in ('chain_kw', 'chain_pos', 'chain_pick'):
                 # two-level chain: the wrapper calls mid(..., callee, ...) which
                 # forwards both stars to the callee it received; declared
                 # equivalent of mid given that argument
@@ -117,6 +129,8 @@ def expected_declared(p, ns):
                 cs = PS.forwards(PS.signature(mid), cs, 0)
                 if p.route == 'chain_kw':
                     names = names + ['fparam']
+                elif p.route == 'chain_pick':
+                    n = n + 3       # a run-time-only value, the callee, a second known callable
                 else:
                     n = n + 1
             sigs.append(PS.forwards(own, cs, n, *names,
@@ -209,7 +223,7 @@ def model_discover(p, ns):
         bound = {'fparam': ns[list(p.callees)[0]]}
     elif p.route == 'param_default':
         bound = {'first_': 0}
-    own = describe_sig(PS.signature(fn))
+    own = describe_sig(PS.signature(own_function(p, fn)))
     plain_sig = PS.signature(obj)
     infos = []
     memo = {}
